@@ -16,7 +16,7 @@ from .endpoints import Resp
 from .simnet import CALL
 from .world import (mk_pool, API, is_async, guarded, pool_counts, owned_transports, exc_name, documented)
 
-BEHAVIOURS = ["read", "read", "read", "head-only", "partial", "cancel", "timeout", "post"]
+BEHAVIOURS = ["read", "read", "read", "head-only", "partial", "cancel", "timeout", "post", "bad-upload"]
 SERVER_MODES_H1 = ["keepalive", "keepalive", "keepalive", "chunked", "conn-close", "http10", "close-delimited"]
 
 
@@ -171,6 +171,17 @@ class Workload:
                     "think": spec["think"] * self.rng.random(),
                 })
             self.plan.append(row)
+        # "snipes": when a request has ended, its caller cancels whatever another caller has in flight at that very
+        # instant (asyncio: task.cancel(), the wait_for / timeout() mechanism; trio: a cancel scope) - a cancellation
+        # whose timing is decided by another task's progress, e.g. right after it handed a connection over
+        srng = random.Random(spec["seed"] + 5)
+        if spec.get("snipes", True) and is_async(self.flavor) and spec["n_callers"] > 1:
+            for c, row in enumerate(self.plan):
+                for q in row:
+                    if srng.random() < spec.get("snipe_p", 0.15):
+                        q["snipe"] = srng.choice([x for x in range(spec["n_callers"]) if x != c])
+        self.inflight: dict = {}
+        self.snipes_fired = 0
         self.records: list[dict] = []
 
     def url(self, q):
@@ -183,14 +194,18 @@ class Workload:
         hdrs = [("X-Token", tok)]
         ext = {}
         to = {}
-        if self.spec.get("pool_timeout") is not None:
+        ptc = self.spec.get("pool_timeout_callers")
+        if self.spec.get("pool_timeout") is not None and (ptc is None or int(tok[1:].split("r")[0]) in ptc):
             to["pool"] = self.spec["pool_timeout"]
+            rec_pool_timeout = to["pool"]
+        else:
+            rec_pool_timeout = None
         beh = q["beh"]
         if beh == "timeout":
             to["read"] = 0.01
         if to:
             ext["timeout"] = to
-        rec = {"token": tok, "beh": beh, "origin": q["origin"], "t0": self.net.now()}
+        rec = {"token": tok, "beh": beh, "origin": q["origin"], "t0": self.net.now(), "pool_timeout": rec_pool_timeout}
         self.records.append(rec)
 
         async def full(method="GET", content=None):
@@ -198,10 +213,79 @@ class Workload:
             return {"status": r.status, "headers": list(r.headers), "body": r.content, "complete": True}
 
         try:
+            sniped = await self._cancellable(q, rec, full, beh, hdrs, ext)
+            if sniped:
+                rec["cancelled"] = True
+                rec["sniped"] = True
+            rec["end"] = "ok" if "got" in rec else "cancelled"
+        except Exception as exc:  # noqa
+            rec["end"] = "exc"
+            rec["exc"] = exc
+        rec["t1"] = self.net.now()
+        return rec
+
+    def _snipe(self, q):
+        victim = q.get("snipe")
+        if victim is not None and victim in self.inflight:
+            self.snipes_fired += 1
+            self.inflight[victim]()
+
+    async def _cancellable(self, q, rec, full, beh, hdrs, ext):
+        """Runs the request so that another caller can cancel it from outside; returns True if that happened."""
+        c = int(q["token"][1:].split("r")[0])
+        if not is_async(self.flavor):
+            await self._behave(q, rec, full, beh, hdrs, ext)
+            return False
+        if self.flavor == "asyncio":
+            import asyncio
+            task = asyncio.get_running_loop().create_task(self._behave(q, rec, full, beh, hdrs, ext))
+            fired = []
+
+            def kill():
+                fired.append(1)
+                task.cancel()
+            self.inflight[c] = kill
+            try:
+                await task
+            except asyncio.CancelledError:
+                if fired and task.cancelled() and not asyncio.current_task().cancelling():
+                    return True
+                raise
+            finally:
+                self.inflight.pop(c, None)
+            return False
+        with anyio.CancelScope() as scope:
+            self.inflight[c] = scope.cancel
+            try:
+                await self._behave(q, rec, full, beh, hdrs, ext)
+            finally:
+                self.inflight.pop(c, None)
+        return scope.cancelled_caught
+
+    async def _behave(self, q, rec, full, beh, hdrs, ext):
+        api = self.api
+        try:
+            await self._behave1(q, rec, full, beh, hdrs, ext)
+        finally:
+            # in the same step in which the request ended (no trip through the event loop in between)
+            self._snipe(q)
+
+    async def _behave1(self, q, rec, full, beh, hdrs, ext):
+        api = self.api
+        if True:
             if beh in ("read", "timeout"):
                 rec["got"] = await full()
             elif beh == "post":
                 rec["got"] = await full("POST", api.body([b"p" * 300, b"q" * 300]))
+            elif beh == "bad-upload":
+                # a caller bug: the body does not match the declared Content-Length (too short or too long); the
+                # head - and the first chunk - are on the wire when the library notices
+                if self.spec["proto"] == "h2":
+                    rec["got"] = await full("POST", api.body([b"p" * 300]))
+                else:
+                    hdrs.append(("Content-Length", "10"))
+                    chunks = [b"12345"] if q["k"] % 2 else [b"12345", b"6789012345"]
+                    rec["got"] = await full("POST", api.body(chunks))
             elif beh in ("head-only", "partial"):
                 resp, cm = await api.open("GET", self.url(q), headers=hdrs, extensions=ext)
                 try:
@@ -220,12 +304,6 @@ class Workload:
                     raise out.exc
                 else:
                     rec["cancelled"] = True
-            rec["end"] = "ok" if "got" in rec else "cancelled"
-        except Exception as exc:  # noqa
-            rec["end"] = "exc"
-            rec["exc"] = exc
-        rec["t1"] = self.net.now()
-        return rec
 
     async def caller(self, c):
         for q in self.plan[c]:
@@ -313,6 +391,8 @@ class LimitObserver:
         self.viol: list = []
         self.max_excused = 0
         self.busy = False
+        self.evicted_open_prev: set[int] = set()
+        self.used_after_drop: set[int] = set()
 
     def __call__(self, rec) -> None:
         if self.busy:
@@ -344,6 +424,8 @@ class LimitObserver:
         if rec["ev"] not in ("connect.ret", "close", "start_tls.ret", "write.ret", "read.ret"):
             return
         self.full_evals += 1
+        if rec["ev"] in ("read.ret", "write.ret") and rec.get("n") and rec.get("tr") in self.evicted_open_prev:
+            self.used_after_drop.add(rec["tr"])  # request/response bytes moved on a connection the pool had dropped
         open_now = {t.id for t in net.transports if not t.closed}
         owned_by = []
         owned_pooled = set()
@@ -358,10 +440,13 @@ class LimitObserver:
             o = owned_transports(c) & open_now
             if o:
                 owned_evicted |= o
-                # "evicted and being closed" is the only excuse: a connection that was dropped from the pool while a
-                # request is still assigned to it is neither - its stream still counts against the limit
+                # "evicted and being closed" is the only excuse: a connection that was dropped from the pool, still has a
+                # request assigned and still moves that request's bytes is neither - its stream counts against the
+                # limit. (Under threads a connection is legitimately seen as dropped for a moment between the line that
+                # marks it closed and the line that closes its stream: no bytes move in that window.)
                 if any(getattr(pr, "connection", None) is c for pr in reqs):
-                    in_use_evicted |= o
+                    in_use_evicted |= (o & self.used_after_drop)
+        self.evicted_open_prev = owned_evicted
         self.ever_owned |= owned_pooled | owned_evicted
         if any(len(o) > 1 for o in owned_by) and len(self.viol) < 5:
             self.viol.append(("connection-owns-several-open-streams", {"owned": [sorted(o) for o in owned_by], "seq": rec["seq"]}))
